@@ -244,6 +244,89 @@ def build_harness(ctx, name, harness_c, repo_sources=(), extra_flags=(), rt_objs
     return exe
 
 
+# --------------------------------------------------------------------------
+# initial-state contract (rt/h_init.c): the REAL init/create function of every
+# primitive, run on dirty (0x5a) memory, must establish the documented initial
+# state and the first non-blocking operations must behave.  Sequential, not
+# instrumented; one forked child per primitive.
+# --------------------------------------------------------------------------
+INIT_SOURCES = ["src/fiber_mutex.c", "src/fiber_cond.c", "src/fiber_semaphore.c", "src/fiber_rwlock.c",
+                "src/fiber_barrier.c", "src/fiber_spinlock.c", "src/hazard_pointer.c", "src/work_queue.c",
+                "src/work_stealing_deque.c", "src/fiber_scheduler_wsd.c"]
+# production configuration of the sources: no sanitizer, asserts enabled, no verification hooks;
+# malloc hands out 0x5a-filled memory, calloc zeroed memory (its contract)
+INIT_CFLAGS = [f for f in REPO_CFLAGS if f not in ("-fsanitize=thread", "-DNDEBUG", "-D" + GUARD)] + \
+              ["-Dmalloc=h_init_malloc", "-Dcalloc=h_init_calloc"]
+_INIT_LINE = re.compile(r"^([A-Za-z0-9_]+) (ok|FAIL .*)$")
+
+
+def build_init(ctx):
+    """build rt/h_init.c + the real sources once per check run (cached on ctx)."""
+    if hasattr(ctx, "init_exe"):
+        return ctx.init_exe
+    ctx.init_exe = None
+    exe = os.path.join(ctx.scratch, "h_init")
+    srcs = [os.path.join(RT, "h_init.c")] + [os.path.join(REPO, s) for s in INIT_SOURCES]
+    rc, out = sh(["gcc"] + INIT_CFLAGS + srcs + ["-lpthread", "-o", exe], timeout=300)
+    if rc != 0:
+        ctx.oblige("build:h_init", False, out)
+        return None
+    ctx.init_exe = exe
+    return exe
+
+
+def run_init(exe, names=()):
+    """-> ({name: (ok, text, line)}, raw output)"""
+    rc, out = sh([exe] + list(names), timeout=900)
+    res = {}
+    for l in out.split("\n"):
+        m = _INIT_LINE.match(l.strip())
+        if m:
+            res[m.group(1)] = (m.group(2) == "ok", m.group(2)[5:] if m.group(2) != "ok" else "", l.strip())
+    return res, out
+
+
+def init_contract(ctx, names):
+    """one obligation per primitive in `names`; a FAIL line is a concrete violation
+    (replay case = the primitive's name)."""
+    exe = build_init(ctx)
+    if not exe:
+        return False
+    if not hasattr(ctx, "init_results"):
+        ctx.init_results = run_init(exe)
+    res, out = ctx.init_results
+    allok = True
+    for n in names:
+        if n not in res:
+            ctx.oblige("init-contract:%s" % n, False, "no verdict for %s in the output of h_init:\n%s" % (n, out[-1500:]))
+            allok = False
+            continue
+        ok, text, line = res[n]
+        ctx.oblige("init-contract:%s" % n, ok, line if ok else out[-1500:])
+        if not ok:
+            allok = False
+            report_violation(ctx, "h_init", n, "init contract: " + text, line)
+    t = "rt/h_init.c: sequential harness with stubs for the runtime entry points (no context switch); sources built " \
+        "without sanitizer/NDEBUG/verification hooks, malloc -> 0x5a-filled, calloc -> zeroed"
+    if t not in ctx.trusted:
+        ctx.trusted = list(ctx.trusted) + [t]
+    ctx.stats["h_init"] = {"primitives": sorted(set(ctx.stats.get("h_init", {}).get("primitives", []) + list(names))),
+                           "rule": "real init/create on 0x5a-filled memory, initial fields + first non-blocking operations"}
+    return allok
+
+
+def replay_init(ctx, payload):
+    exe = build_init(ctx)
+    name = str(payload.get("case") or "")
+    if not exe or not name:
+        print("nothing to replay (h_init did not build or no primitive named)")
+        return 2
+    res, out = run_init(exe, [name])
+    print("h_init %s  (real init/create on 0x5a-filled memory, then the first non-blocking operations)" % name)
+    print(out.rstrip())
+    return 0 if (name in res and res[name][0]) else 1
+
+
 def run_sharded(cmd, cases, timeout=600):
     """run `cmd` over the case lines, one output line per case, in parallel."""
     if not cases:
